@@ -247,6 +247,11 @@ def stepSourceOp (d : DState) (op : String) (toks impl : List String) : Option (
            { name := "C20.source-cache", ok := e == implS, expected := e }]
       some (report d op { model := m, impl := implS, kind := i.top, clauses := clauses })
     else none
+  | ["sclone", a, b] => do
+    -- a copy of a source is a source in the same state (a pending look-ahead, a cached item included): same
+    -- descriptor, same operation log
+    let i ← d.getSrc (← a.toNat?)
+    some (report ((d.putSrc (← b.toNat?) i).flag "src.clone") op { model := "ok", impl := implS, kind := i.top })
   | ["ssame", a, b, clause] => do
     -- two sources pulled in lockstep (a wrapper and the bare source): their most recent answers agree
     let ia ← d.getSrc (← a.toNat?)
@@ -393,8 +398,26 @@ def stepI64SinkOp (d : DState) (op : String) (toks impl : List String) : Option 
   let put (d : DState) (id : Nat) (k : SinkModels.Sk I64) : DState := { d with isinks := (id, k) :: d.isinks.filter (·.1 != id) }
   let rl (o : Option (List I64)) : String := match o with
     | none => "none" | some l => if l.isEmpty then "-" else " ".intercalate (l.map I64.render)
+  let hget (id : Nat) : String × List Int := ((d.ihist.find? (·.1 == id)).map (·.2)).getD ("", [])
+  let hput (d : DState) (id : Nat) (k : String) (h : List Int) : DState :=
+    { d with ihist := (id, k, h) :: d.ihist.filter (·.1 != id) }
+  -- the batch mean in integers, where it is determined: every prefix mean integral (then no step of the sink's
+  -- recurrence truncates, and "the mean of all samples so far" is that integer whatever the arithmetic)
+  let exactMean (h : List Int) : Option Int :=
+    let ok := (List.range h.length).all (fun k => (h.take (k + 1)).sum % ((k : Int) + 1) == 0)
+    if h.isEmpty || !ok then none else some (h.sum / (h.length : Int))
+  let meanClause (name kind : String) (h : List Int) (pick : String → Option String) : List Clause :=
+    if kind != "sink_mean_i64" && kind != "sink_meanvar_i64" && kind != "sink_stats_i64" then [] else
+    match exactMean h with
+    | none => []
+    | some m =>
+      let idx := if kind == "sink_stats_i64" then 2 else 0
+      let got := ((implS.splitOn " ").filter (· != ""))[idx]?
+      let _ := pick
+      [{ name := name, ok := got == some (toString m), expected := toString m }]
   match toks with
   | ["new", id, kind] => do
+    let d := hput d (← id.toNat?) kind []
     let k : SinkModels.Sk I64 ← match kind with
       | "sink_mean_i64" => some (.mean none)
       | "sink_meanvar_i64" => some (.meanVar none)
@@ -407,18 +430,23 @@ def stepI64SinkOp (d : DState) (op : String) (toks impl : List String) : Option 
     let k ← get id
     let x ← I64.parse v
     let cl : List Clause := if implS == "PANIC" then [clauseP "no-panic" false "ok"] else []
+    let d := hput d id (hget id).1 ((hget id).2 ++ [x.v])
     some (report (put d id (k.sink x)) op { model := "ok", impl := implS, kind := "sink-i64", clauses := cl })
   | ["ff", id, v] => do
     let id ← id.toNat?
     let k ← get id
     let x ← I64.parse v
     let r := k.filter x
-    let cl : List Clause := if implS == "PANIC" then [clauseP "no-panic" false (rl (some r.2))] else []
+    let h := (hget id).2 ++ [x.v]
+    let cl : List Clause := if implS == "PANIC" then [clauseP "no-panic" false (rl (some r.2))]
+      else meanClause "C11.running" (hget id).1 h (fun _ => none)
+    let d := hput d id (hget id).1 h
     some (report (put d id r.1) op { model := rl (some r.2), impl := implS, kind := "sink-i64", clauses := cl })
   | ["fin", id] => do
     let id ← id.toNat?
     let k ← get id
-    let cl : List Clause := if implS == "PANIC" then [clauseP "no-panic" false (rl k.finalize)] else []
+    let cl : List Clause := if implS == "PANIC" then [clauseP "no-panic" false (rl k.finalize)]
+      else meanClause "C11.finalize" (hget id).1 (hget id).2 (fun _ => none)
     some (report d op { model := rl k.finalize, impl := implS, kind := "sink-i64", clauses := cl })
   | _ => none
 
@@ -637,6 +665,15 @@ def stepPipeOp (d : DState) (op : String) (toks impl : List String) : Option (DS
       some (report d op { model := e, impl := implS, kind := "pipe",
                           clauses := [{ name := "C01.sink-pipe", ok := e == implS, expected := e }] })
     else
+    if p.sink.isNone && p.source.isSome then
+      -- a `source | … | sink` pipeline whose last stage is a dual-role sink (to the model: the last leaf, a running sum):
+      -- finalising it yields what that sink holds after the samples it has seen so far — the items pulled, no more
+      let e ← p.source
+      let items := (psrcPulls e p.pulls).filterMap (fun o => o)
+      let exp := match (seqSpec p.leaves items).getLast? with | some v => v.render | none => "0"
+      some (report d op { model := exp, impl := implS, kind := "pipe",
+                          clauses := [{ name := "C01.sink-pipe", ok := exp == implS, expected := exp }] })
+    else
     let k ← p.sink
     let m := renderFin (← pipeFinalize p.leaves k p.shape p.log)
     -- specification: finalising that sink after it received the samples filtered by the stages in order
@@ -675,7 +712,7 @@ def step (d : DState) (line : String) : DState × List String :=
   match toks with
   | ["case", n] =>
     let out := closeCase d
-    ({ d with insts := [], srcs := [], sinks := [], pipes := [], f64s := [], f32s := [], i64s := [], isinks := [], caseNo := n.toNat?.getD (d.caseNo + 1),
+    ({ d with insts := [], srcs := [], sinks := [], pipes := [], f64s := [], f32s := [], i64s := [], isinks := [], ihist := [], caseNo := n.toNat?.getD (d.caseNo + 1),
               flags := [], caseOps := 0 }, out)
   | _ =>
     match stepPipeOp d op toks impl with
